@@ -68,6 +68,19 @@ BY_NAME = {}
 for _m in REQUESTS + RESPONSES:
     BY_NAME.setdefault(name(_m), _m)
 
+# the same message classes with other payload lengths (what is learnt about one frame of a function code must not be
+# applied to the next one)
+VARIANTS = {
+    'req10#1': dict(kind='req', fc=0x10, address=9, count=1, byte_count=2, registers=[0x0BAD]),
+    'req10#3': dict(kind='req', fc=0x10, address=3, count=3, byte_count=6, registers=[0x0301, 0x0302, 0x0303]),
+    'req0F#9': dict(kind='req', fc=0x0F, address=2, count=9, byte_count=2, bits=[True, False, True, True, False, False, True, False, True]),
+    'req17#1': dict(kind='req', fc=0x17, read_address=1, read_count=1, write_address=2, write_count=1, write_byte_count=2, write_registers=[0x1701]),
+    'rsp03#1': dict(kind='rsp', fc=3, registers=[0x0311]),
+    'rsp03#3': dict(kind='rsp', fc=3, registers=[0x0331, 0x0332, 0x0333]),
+    'rsp01#2': dict(kind='rsp', fc=1, byte_count=2, bits=[True, False, True, True, False, False, True, False, True, False, False, False, False, False, False, False]),
+}
+BY_NAME.update(VARIANTS)
+
 # the 7-class mix of DESIGN C06: fixed-size, byte-count-sized, exception,
 # diagnostic, MEI, file record, FIFO
 MIX_REQ = ['req03', 'req10', 'req05', 'req08.00', 'req2B', 'req15', 'req18']
